@@ -565,33 +565,93 @@ func checkMinus(r *Run) {
 	// (a) the primitives: a nil error only on the edge that excludes a negative result
 	for _, name := range []string{fnCoinMinus, fnAmountMinus} {
 		fn := p.MustFn(name)
+		// the difference, zero, and the two operands of the subtraction (receiver = minuend, argument = subtrahend)
+		isSub := func(y ssa.Value) bool { cc, ok := y.(*ssa.Call); return ok && calleeName(cc) == "(*math/big.Int).Sub" }
+		isDiff := func(v ssa.Value) bool { return derivesFrom(v, isSub) }
+		fromParam := func(v ssa.Value, i int) bool {
+			return i < len(fn.Params) && derivesFrom(v, func(y ssa.Value) bool { return y == ssa.Value(fn.Params[i]) })
+		}
+		isMinuend := func(v ssa.Value) bool { return !isDiff(v) && fromParam(v, 0) && !fromParam(v, 1) }
+		isSubtrahend := func(v ssa.Value) bool { return !isDiff(v) && fromParam(v, 1) && !fromParam(v, 0) }
+		isZero := func(v ssa.Value) bool {
+			if isDiff(v) || fromParam(v, 0) || fromParam(v, 1) {
+				return false
+			}
+			return derivesFrom(v, func(y ssa.Value) bool {
+				z, ok := y.(*ssa.Call)
+				if !ok || len(z.Call.Args) == 0 {
+					return false
+				}
+				switch calleeName(z) {
+				case "math/big.NewInt", "data/balance.NewAmount", "data/balance.NewAmountFromInt":
+					kk, isC := intConst(z.Call.Args[0])
+					return isC && kk == 0
+				}
+				return false
+			})
+		}
+		// the subtraction itself is minuend - subtrahend
+		subOK := false
+		allInstrs(fn, func(ins ssa.Instruction) {
+			if c, ok := ins.(*ssa.Call); ok && isSub(c) && len(c.Call.Args) == 3 && isMinuend(c.Call.Args[1]) && isSubtrahend(c.Call.Args[2]) {
+				subOK = true
+			}
+		})
 		edges := condEdges(fn, func(cond ssa.Value, _ *ssa.If) int {
 			v, flip := stripNot(cond)
-			bo, ok := v.(*ssa.BinOp)
-			if !ok {
-				return 0
-			}
-			c, ok := bo.X.(*ssa.Call)
-			k, isK := intConst(bo.Y)
-			if !ok || !isK || calleeName(c) != "(*math/big.Int).Cmp" {
-				return 0
-			}
-			isDiff := derivesFrom(c.Call.Args[0], func(y ssa.Value) bool { cc, ok := y.(*ssa.Call); return ok && calleeName(cc) == "(*math/big.Int).Sub" })
-			zero := false
-			if z, ok := c.Call.Args[1].(*ssa.Call); ok && calleeName(z) == "math/big.NewInt" {
-				if kk, isC := intConst(z.Call.Args[0]); isC && kk == 0 {
-					zero = true
+			v = resolveLoad(v)
+			pol := 0
+			switch x := v.(type) {
+			case *ssa.BinOp:
+				c, ok := x.X.(*ssa.Call)
+				k, isK := intConst(x.Y)
+				op := x.Op
+				if !ok || !isK {
+					c, ok = x.Y.(*ssa.Call)
+					k, isK = intConst(x.X)
+					op = mirror(x.Op)
+				}
+				if !ok || !isK {
+					return 0
+				}
+				switch calleeName(c) {
+				case "(*math/big.Int).Cmp":
+					a0, a1 := c.Call.Args[0], c.Call.Args[1]
+					switch {
+					case isDiff(a0) && isZero(a1), isMinuend(a0) && isSubtrahend(a1):
+						pol = cmpLowerBound(op, k)
+					case isZero(a0) && isDiff(a1), isSubtrahend(a0) && isMinuend(a1):
+						pol = cmpLowerBound(mirror(op), -k)
+					}
+				case "(*math/big.Int).Sign":
+					if isDiff(c.Call.Args[0]) {
+						pol = cmpLowerBound(op, k)
+					}
+				}
+			case *ssa.Call:
+				if len(x.Call.Args) != 2 {
+					return 0
+				}
+				a0, a1 := x.Call.Args[0], x.Call.Args[1]
+				switch calleeName(x) {
+				case "(data/balance.Coin).LessThanCoin", "(*data/balance.Amount).LessThan":
+					if isMinuend(a0) && isSubtrahend(a1) {
+						pol = -1 // minuend < subtrahend: the false edge has minuend >= subtrahend
+					}
+				case "(data/balance.Coin).LessThanEqualCoin":
+					if isSubtrahend(a0) && isMinuend(a1) {
+						pol = +1
+					}
 				}
 			}
-			if !isDiff || !zero {
-				return 0
-			}
-			pol := cmpLowerBound(bo.Op, k)
 			if flip {
 				pol = -pol
 			}
 			return pol
 		})
+		if !subOK {
+			edges = nil
+		}
 		live := reachWithout(fn, edges)
 		bad := len(edges) == 0
 		pos := p.pos(fn.Pos())
